@@ -610,6 +610,31 @@ def run_impl_inner(case, parsed):
                     if got != [res['recs'][j][1]]:
                         res['problems'].append(f'path(.) of node {j} of another tree (same input) gave {got!r:.80}, '
                                                f'expected {res["recs"][j][1]!r:.80}')
+                    # ... and that path, evaluated against the node's OWN tree, selects it (per-tree statement)
+                    back = list(P2(namespaces=pns).parse(res['recs'][j][1]).select(XPathContext(other, fragment=frag))) \
+                        if not res['recs'][j][1].startswith(('ERR', 'NOT-')) else None
+                    if back is not None and not (len(back) == 1 and back[0] is onodes[j]):
+                        res['problems'].append(f'path of node {j} of the second tree, evaluated in that tree, selects '
+                                               f'{[index.get(id(x), type(x).__name__) for x in back]!r:.80}')
+                # THREE trees in ONE evaluation: the context tree, a second tree of the same shape ($o) and a small
+                # unrelated tree ($c, element- or document-rooted): every node gets the path of its own tree
+                import xml.etree.ElementTree as _ET
+                import lxml.etree as _LE
+                zt = (_ET if case['lib'] == 'et' else _LE)
+                zroot = zt.XML('<z><y/>t</z>')
+                zdoc = len(nodes) % 2 == 0
+                ctree = get_node_tree(zt.ElementTree(zroot) if zdoc else zroot)
+                rootp = f'Q{{{FN_NS}}}root()'
+                cexp = ['/', '/Q{}z[1]', '/Q{}z[1]/Q{}y[1]', '/Q{}z[1]/text()[1]'] if zdoc else \
+                    [rootp, rootp + '/Q{}y[1]', rootp + '/text()[1]']
+                own = [r[1] for r, kd in zip(res['recs'], res['kinds']) if kd[0] in ('doc', 'elem', 'text', 'comment', 'pi')]
+                expr = '($o/descendant-or-self::node(), $c/descendant-or-self::node(), descendant-or-self::node()) ! path(.)'
+                got = list(P2(namespaces=pns).parse(expr).select(
+                    XPathContext(tree, fragment=frag, variables={'o': other, 'c': ctree})))
+                if got != own + cexp + own:
+                    res['problems'].append(f'three trees in one evaluation: {expr} gave {got!r:.300} expected {own + cexp + own!r:.300}')
+                else:
+                    res['forest'] = len(got)
     except Exception as e:
         res['problems'].append('fn:path on () / foreign node: ' + err_text(e))
     # a library-produced document used inside one expression: the paths of all its nodes, in document order
@@ -910,6 +935,8 @@ def compare(run: Run, cases: list, count=True) -> None:
                                           what=f'etree_iter_paths(path={lead!r})', site='etree.etree_iter_paths'))
             elif count:
                 st.count(f'etree-paths(path={lead!r})', len(got))
+        if count and impl.get('forest'):
+            st.count('paths-of-three-trees-in-one-evaluation', impl['forest'])
         if impl.get('lazy') is not None:
             if impl['lazy_kinds'] != kinds:
                 run.disagree(Disagreement(dict(base, lazy=True), json.dumps(impl['lazy_kinds'], default=str)[:600], None,
